@@ -19,6 +19,10 @@ enum Ev {
     Drop,
     /// issue a unary call
     Call,
+    /// issue a unary call whose deadline is already over (Request::set_timeout(ZERO)): its own
+    /// outcome is a race between the deadline and the connection and is not judged, but it must
+    /// complete, and whatever connection attempt it triggers must not leak into later calls
+    CallZero,
 }
 
 #[derive(Clone, Debug)]
@@ -106,6 +110,22 @@ fn body(c: &Case, ch: &Chooser) -> Outcome {
                         }
                         m_connected = false;
                     }
+                    Ev::CallZero => {
+                        let mut req = tonic::Request::new(vec![1, 2]);
+                        req.set_timeout(Duration::ZERO);
+                        let r = vnet::within(Duration::from_secs(3600), client.unary(req)).await;
+                        if r.is_none() {
+                            trace.push(Obs::CallHang);
+                            m_trace.push(Obs::CallOk);
+                        }
+                        // model: one connection attempt if disconnected, consumed by this call
+                        if !m_connected {
+                            m_inv += 1;
+                            if m_mode == ConnectMode::Succeed {
+                                m_connected = true;
+                            }
+                        }
+                    }
                     Ev::Call => {
                         let r = vnet::within(Duration::from_secs(3600), client.unary(tonic::Request::new(vec![1, 2]))).await;
                         trace.push(match r {
@@ -137,7 +157,7 @@ fn body(c: &Case, ch: &Chooser) -> Outcome {
     });
     drop(rt);
     let mut o = Outcome::new(format!("trace={trace:?} connector_invocations={invocations}"));
-    o.nontrivial = c.script.iter().any(|e| *e == Ev::Drop || *e == Ev::SetFail) && c.script.contains(&Ev::Call);
+    o.nontrivial = c.script.iter().any(|e| *e == Ev::Drop || *e == Ev::SetFail || *e == Ev::CallZero) && c.script.contains(&Ev::Call);
     for (i, (got, want)) in trace.iter().zip(&model_trace).enumerate() {
         if got != want {
             let key = match (got, want) {
@@ -161,7 +181,7 @@ fn body(c: &Case, ch: &Chooser) -> Outcome {
 }
 
 fn scripts(maxlen: usize) -> Vec<Vec<Ev>> {
-    let alpha = [Ev::Call, Ev::SetFail, Ev::SetOk, Ev::Drop];
+    let alpha = [Ev::Call, Ev::SetFail, Ev::SetOk, Ev::Drop, Ev::CallZero];
     let mut out: Vec<Vec<Ev>> = vec![];
     let mut frontier: Vec<Vec<Ev>> = vec![vec![]];
     for _ in 0..maxlen {
@@ -208,7 +228,7 @@ pub fn property(tier: Tier) -> Property {
     let sec = Section::new(
         "fault-scripts",
         Config { hang_secs: 60, ..Default::default() },
-        "cases: every event script up to length 6 (thorough 9) over {call, connector-starts-failing, connector-starts-succeeding, peer-drops-the-established-connection} (canonical: no repeated mode settings/drops, ending in a call) x lazy/eager channel x initial connector mode x {immediate / Pending-once connector, pipe fragmentation pattern, Endpoint timeouts}; real Endpoint::connect_with_connector[_lazy] -> Channel -> hyper/h2 over in-memory pipes -> Server::serve_with_incoming in virtual time, each event followed by quiescence; RefChannel (connected?, mode) stepped in lock-step: eager initial failure => connect error at once; call while connected => answer; call while disconnected => exactly one connector invocation, UNAVAILABLE to that call only if it fails, success if it succeeds; never a hang (virtual horizon) or panic; connector invocation count equals the model's. Non-trivial = script contains a fault (drop / failing mode) and a call.",
+        "cases: every event script up to length 6 (thorough 9) over {call, call with an already expired deadline (own outcome unjudged), connector-starts-failing, connector-starts-succeeding, peer-drops-the-established-connection} (canonical: no repeated mode settings/drops, ending in a call) x lazy/eager channel x initial connector mode x {immediate / Pending-once connector, pipe fragmentation pattern, Endpoint timeouts}; real Endpoint::connect_with_connector[_lazy] -> Channel -> hyper/h2 over in-memory pipes -> Server::serve_with_incoming in virtual time, each event followed by quiescence; RefChannel (connected?, mode) stepped in lock-step: eager initial failure => connect error at once; call while connected => answer; call while disconnected => exactly one connector invocation, UNAVAILABLE to that call only if it fails, success if it succeeds; never a hang (virtual horizon) or panic; connector invocation count equals the model's. Non-trivial = script contains a fault (drop / failing mode) and a call.",
         cases,
         |c: &Case| format!("lazy={} initial={:?} delayed={} chop={} timeouts={} script={:?}", c.lazy, c.initial, c.delayed, c.chop, c.timeouts, c.script),
         body,
